@@ -21,6 +21,10 @@ for d in sorted(glob.glob(f'/verif/seeded/{prop}-*')):
         m = re.match(r'@@ .* @@ (.*)', line)
         if m and cur: touched.append(f'{cur}: {m.group(1).strip()}')
 touched = sorted(set(touched))
+# what the earlier changes did, in one line each (so that a new change does not repeat a mechanism)
+for d in sorted(glob.glob(f'/verif/seeded/{prop}-*')):
+    try: touched.append('earlier change: ' + json.load(open(d + '/meta.json'))['needs_to_manifest'][:300])
+    except Exception: pass
 tmpl = open('/verif/bin/seed_agent_prompt.txt').read()
 txt = tmpl.replace('@WT@', wt).replace('@OUT@', out).replace('@TARGET@', target).replace('@TOUCHED@', '\n'.join('   - ' + t for t in touched) or '   (none)')
 open(f'/tmp/agent_prompt_{prop}{tag}.txt', 'w').write(txt)
